@@ -379,7 +379,13 @@ def fx_locksplit(fx):
     n = 0
     for nm in ("ok_ensure", "bad_ensure"):
         n += sync.lock_split(c, Fn(fx.raw("locksplit::Lazy::" + nm)))
-    return n >= 1 and _fires(c, "Lazy::bad_ensure") and not _fires(c, "Lazy::ok_ensure")
+    ok1 = n >= 1 and _fires(c, "Lazy::bad_ensure") and not _fires(c, "Lazy::ok_ensure")
+    c2 = _ctx()
+    for nm in ("ok_free", "bad_free"):
+        sync.lock_split(c2, Fn(fx.raw("locksplit2::Bump::" + nm)), fx=fx)
+    c3 = _ctx()
+    sync.load_modify_store(c3, [Fn(fx.raw("locksplit2::Bump::" + nm)) for nm in ("bad_take_some", "push")])
+    return ok1 and _fires(c2, "Bump::bad_free") and not _fires(c2, "Bump::ok_free") and _fires(c3, "Bump::bad_take_some")
 
 
 def fx_clear(fx):
@@ -693,3 +699,28 @@ def fx_identity(fx):
     c = _ctx()
     n = simdsign.ptr_identity_fast_path(c, fx, ["src/lib.rs"], only=lambda fid: "identfx::" in fid)
     return n == 2 and _fires(c, "identfx::bad_compare") and not _fires(c, "identfx::ok_compare")
+
+
+def fx_narrowsum(fx):
+    from rules import taint
+    c = _ctx()
+    n = taint.narrow_sums(c, fx, ["sumfx::decode_bad", "sumfx::decode_ok"])
+    return n == 2 and _fires(c, "sumfx::bad_model") and not _fires(c, "sumfx::ok_model") and not _fires(c, "sumfx::ok_wide")
+
+
+def fx_strslice(fx):
+    from rules import taint
+    c = _ctx()
+    cl = taint.new_closure(fx)
+    for fid in fx.fn_ids("src/lib.rs"):
+        if fid.startswith("strfx::"):
+            cl.seed_entry(fid)
+    n = taint.str_byte_slices(c, cl.run())
+    return n == 1 and _fires(c, "strfx::bad_parse") and not _fires(c, "strfx::ok_parse")
+
+
+def fx_flushwhole(fx):
+    from rules import scratch
+    c = _ctx()
+    n = scratch.partial_flush_then_clear(c, fx, ["src/lib.rs"], only=lambda fid: "flushfx::" in fid)
+    return n == 2 and _fires(c, "bad_flush") and not _fires(c, "ok_flush_all") and not _fires(c, "ok_flush_drain")
